@@ -84,6 +84,14 @@ class Chaos(SimAlgo):
         elif kind == "nonflow":
             sim.fire("nonflow_adjust")
             target.adjust(a[1], flow=False)
+        elif kind == "flow_deferred":
+            sim.fire("flow_shock_update_false")
+            target.adjust(a[1], update=False)
+            sim.in_batch = True  # D1: nothing is observed until some root.update delivers the change
+        elif kind == "nonflow_deferred":
+            sim.fire("nonflow_adjust_update_false")
+            target.adjust(a[1], update=False, flow=False)
+            sim.in_batch = True
         return True
 
 
